@@ -33,6 +33,12 @@ package task
 //@   ghostvar enq bool = false
 //@   on call (*controlcommands.CommandQueue).Enqueue : assert len(tasks) > 0 ; enq = true
 //@   ensures len(tasks) == 0 ==> err == nil && !enq
+//   C12 / C02 (a command completes exactly once - also one that could not even be queued): the answer is waited for only
+//   if the command was accepted by the queue; a refused command (queue full or not started) fails the transition at once
+//@   ghostvar enqErr bool = false
+//@   on aftercall (*controlcommands.CommandQueue).Enqueue : enqErr = result != nil
+//@   on recv * : assert !enqErr
+//@   ensures enqErr ==> err != nil
 //   a command with one target is answered with a plain (non-multi) response: its error fails the transition only if that
 //   one task is critical
 //@   ghostvar respErrSeen bool = false
@@ -57,6 +63,11 @@ package task
 
 //@ func (m *Manager) configureTasks(envId uid.ID, tasks Tasks) (err error)
 //@   property C02 C13
+//   C12 / C02: as for transitionTasks, no answer is waited for when the command was refused by the queue
+//@   ghostvar enqErr bool = false
+//@   on aftercall (*controlcommands.CommandQueue).Enqueue : enqErr = result != nil
+//@   on recv * : assert !enqErr
+//@   ensures enqErr ==> err != nil
 //   C13: the environment-wide bind map registers each locally bound channel with the task's HOST substituted into the
 //   endpoint, and exactly that map is handed to the property-map builder
 //@   ghostvar host string = ""
